@@ -782,4 +782,42 @@ def statTable : List (String × List String) := statNames.filterMap (fun n => (s
 /-- the degenerate-feature threshold `.000001` -/
 def guardThreshold : Rat := 1 / 1000000
 
+/-! ### phase 4 (continued): the column decision, and the square root `statistics.stdev` computes -/
+
+/-- the condition under which the statistics raise `TypeError` -/
+def TypeErrCond (cfg : Cfg) (w : List Val) : Prop :=
+  w.any Val.isStr = true ∧
+    ¬ ∃ a, cfg.shift = .num a ∧ ((∃ b, cfg.scale = .num b) ∨ (cfg.scale = .iqr ∧ presentCount w ≤ 1))
+
+/-- … plain `ValueError` -/
+def ValueErrCond (cfg : Cfg) (w : List Val) : Prop :=
+  w.any Val.isStr = false ∧ nums w = [] ∧
+    (cfg.shift = .min ∨ ((∃ a, cfg.shift = .num a) ∧ (cfg.scale = .minmax ∨ cfg.scale = .maxabs)))
+
+/-- … `StatisticsError` -/
+def StatErrCond (cfg : Cfg) (w : List Val) : Prop :=
+  w.any Val.isStr = false ∧
+    ((nums w = [] ∧ (cfg.shift = .mean ∨ cfg.shift = .median)) ∨
+     (((∃ a, cfg.shift = .num a) ∨ nums w ≠ []) ∧ cfg.scale = .std ∧ (nums w).length < 2))
+
+/-- the real decision procedure of the dense path for column `k`: potential key from the FIRST context, parameters from the
+window column -/
+def denseDecision (sd : List Rat → Rat) (cfg : Cfg) (first : List Val) (win : List (List Val)) (k : Nat) : Option (Rat × Rat) :=
+  if potDense first k then fit sd cfg (col k win) else none
+
+def sparseDecision (sd : List Rat → Rat) (cfg : Cfg) (first : SCtx) (win : List SCtx) (k : String) : Option (Rat × Rat) :=
+  if potSparse first k then fit sd cfg (win.map (getD0 k)) else none
+
+/-- `int.bit_length()`, `statistics._integer_sqrt_of_frac_rto` (`a = isqrt(n // m); a | (a*a*m != n)`), the scaling shift `q` of
+`statistics._float_sqrt_of_frac` (`_sqrt_bit_width = 109`) and its `(numerator, denominator)` BEFORE the final, correctly rounded
+`numerator / denominator`; `pySd` = that quotient for the exact sample variance (what `stdev` returns up to the final rounding) -/
+def bitLength (n : Nat) : Nat := if n = 0 then 0 else Nat.log2 n + 1
+def isqrtRto (n m : Nat) : Nat := if Nat.sqrt (n / m) * Nat.sqrt (n / m) * m ≠ n then Nat.sqrt (n / m) ||| 1 else Nat.sqrt (n / m)
+def pySqrtShift (n m : Nat) : Int := ((bitLength n : Int) - (bitLength m : Int) - 109) / 2
+def pySqrtFrac (n m : Nat) : Nat × Nat :=
+  if 0 ≤ pySqrtShift n m then (isqrtRto n (m <<< (2 * (pySqrtShift n m).toNat)) <<< (pySqrtShift n m).toNat, 1)
+  else (isqrtRto (n <<< (2 * (-(pySqrtShift n m)).toNat)) m, 1 <<< (-(pySqrtShift n m)).toNat)
+def pySd (xs : List Rat) : Rat :=
+  ((pySqrtFrac (variance xs).num.toNat (variance xs).den).1 : Rat) / ((pySqrtFrac (variance xs).num.toNat (variance xs).den).2 : Rat)
+
 end Coba.C11
